@@ -284,7 +284,7 @@ Print Assumptions C01_syntax_error_example.
    reference semantics of the SOURCE grammar is taken with actions interpreted as Sem/PegEval.v documents them: the action
    text after the generator's substitutions, evaluated by the same evaluator in the environment of the alternative's items
    under the documented names ([src_names]: explicit names, default names of leaves, _1, _2 ... for repeats; only names
-   the action uses are bound).  [reads_back_with_actions rs M] is decidable: as [reads_back_as], but an alternative with
+   the action uses are bound; a cut is the local `cut` the generated method binds).  [reads_back_with_actions rs M] is decidable: as [reads_back_as], but an alternative with
    an action is related to the alternative read back when the texts agree after substitution and the documented names are,
    position by position, the variables the generator bound.  Under the two hypotheses on explicit actions stated above
    (independence of earlier alternatives' leftovers; never falsy), whenever the method of a rule of rs returns -- or
